@@ -1,6 +1,8 @@
 import PytmeModel.Model.C06
 import PytmeModel.Proofs.C06
 import PytmeModel.Proofs.C06Examples
+import PytmeModel.Proofs.C06Linear
+import PytmeModel.Proofs.C06LinearMoment
 import Mathlib.Algebra.BigOperators.Fin
 import Mathlib.Algebra.BigOperators.Ring.Finset
 import Mathlib.Tactic.Ring
@@ -430,6 +432,365 @@ example : matVec (matOfRows 2 [[0, -1], [1, 0]] : Mat 2 Int) (vecOfList 2 [1, 0]
 
 
 
+
+/-! ## order-1 (linear) interpolation: `affine_transform(order=1, mode="constant", cval=0)` exactly
+
+`linInterp a src` (`Model/C06.lean`) is what the resampler returns for one output voxel whose pulled-back position is
+`src`: the `2^d` corners `⌊src_i⌋ + {0, 1}` weighted multilinearly, `0` as soon as one coordinate is outside
+`[0, n_i − 1]`.  `rigidLinear a R⁻¹ t c o = linInterp a (affineSrc (rigidMatrix R⁻¹ t c) o)` is the order-1 transform at
+voxel `o`, `rigidLinearArr` the whole output array; the driver evaluates exactly these functions (`c06.linear`,
+`c06.lineararr`) and the harness compares them with the real `rigid_transform(order=1)`.
+
+`InsideL src shape` is the guard of the model (`0 ≤ src_i ≤ n_i − 1`, ranks agreeing), `InBoxL shape idx` says that a signed
+index addresses a voxel, `Relevant`, `hat`, `hatProd`, `boxSum`, `dotL`, `SuppOK` are defined in `Proofs/C06Linear*.lean`. -/
+
+/-- `InsideL` is literally the branch condition of the executable model; outside it the model returns `cval = 0` -/
+theorem linInterp_guard (a : Arr Rat) (src : List Rat) :
+    (InsideL src a.shape ↔ (src.length = a.shape.length ∧
+      (List.zip src a.shape).all (fun (xn : Rat × Nat) => decide (0 ≤ xn.1) && decide (xn.1 ≤ ((xn.2 : Int) - 1 : Int))) = true)) ∧
+    (¬ InsideL src a.shape → linInterp a src = 0) :=
+  ⟨insideL_iff src a.shape, linInterp_outside a src⟩
+
+/-- **(a) partition of unity.**  For every position (any dimension) the model uses `2^d` corners, every corner is a grid
+neighbour `⌊x_i⌋` or `⌊x_i⌋ + 1` on each axis, its weight is the tensor-product hat function `Π_i Λ(x_i − corner_i)`, the
+weights are non-negative and sum to `1`. -/
+theorem linear_weights_partition_of_unity (xs : List Rat) :
+    (linCorners xs).length = 2 ^ xs.length ∧
+    (∀ iw ∈ linCorners xs, List.Forall₂ (fun (x : Rat) (i : Int) => i = ⌊x⌋ ∨ i = ⌊x⌋ + 1) xs iw.1) ∧
+    (∀ iw ∈ linCorners xs, iw.2 = hatProd xs iw.1) ∧
+    (∀ iw ∈ linCorners xs, 0 ≤ iw.2) ∧
+    ((linCorners xs).map (fun (iw : List Int × Rat) => iw.2)).sum = 1 :=
+  ⟨linCorners_length xs, linCorners_neighbours xs, linCorners_weight_hat xs, linCorners_nonneg xs, linCorners_sum_one xs⟩
+
+/-- inside the array the model is the iterated one-dimensional interpolation of the zero-extended array, and
+equivalently the sum over **all** voxels against hat functions: `out = Σ_x a[x] · Π_i Λ(src_i − x_i)` -/
+theorem linInterp_closed_forms (a : Arr Rat) (src : List Rat) (hin : InsideL src a.shape) :
+    linInterp a src = interpRec src (fun is => a.getI is 0) ∧
+    linInterp a src = boxSum a.shape (fun x => a.getI x 0 * hatProd src x) :=
+  ⟨linInterp_inside a src hin, linInterp_eq_boxSum a src hin⟩
+
+/-- **(a) range.**  Inside the array the interpolated value lies between the smallest and the largest voxel:
+`min ≤ out ≤ max` (no overshoot at order 1; the corner with index `n_i` that the cell of a position on the last grid
+plane formally has carries weight `0`). -/
+theorem linInterp_range (a : Arr Rat) (src : List Rat) (lo hi : Rat) (hin : InsideL src a.shape)
+    (hv : ∀ idx, inShape a.shape idx = true → lo ≤ a.getD idx 0 ∧ a.getD idx 0 ≤ hi) :
+    lo ≤ linInterp a src ∧ linInterp a src ≤ hi :=
+  linInterp_bounds a src lo hi hin hv
+
+/-- **(a) constants are reproduced** everywhere inside the array -/
+theorem linInterp_constant (a : Arr Rat) (src : List Rat) (k : Rat) (hin : InsideL src a.shape)
+    (hv : ∀ idx, inShape a.shape idx = true → a.getD idx 0 = k) : linInterp a src = k := by
+  have := linInterp_bounds a src k k hin (fun idx h => by rw [hv idx h]; exact ⟨le_refl _, le_refl _⟩)
+  exact le_antisymm this.2 this.1
+
+/-- **(a) at every position, inside or outside**: non-negative data stays non-negative and `|out| ≤ max |a|` (no
+overshoot, no ringing at order 1) -/
+theorem linInterp_global_bounds (a : Arr Rat) (src : List Rat) :
+    ((∀ idx, inShape a.shape idx = true → 0 ≤ a.getD idx 0) → 0 ≤ linInterp a src) ∧
+    (∀ M : Rat, 0 ≤ M → (∀ idx, inShape a.shape idx = true → |a.getD idx 0| ≤ M) → |linInterp a src| ≤ M) :=
+  ⟨linInterp_nonneg a src, fun M hM hv => linInterp_abs_le a src M hM hv⟩
+
+/-- **(b) grid points.**  At an integer position the model returns the voxel itself, for every integer position
+(outside the array both sides are `0`): nothing is interpolated. -/
+theorem linInterp_grid_point (a : Arr Rat) (ks : List Int) :
+    linInterp a (ks.map (fun (z : Int) => (z : Rat))) = a.getI ks 0 :=
+  linInterp_int a ks
+
+/-- **(d) affine exactness.**  If the voxels are an affine function `α + Σ β_i x_i` of the voxel index, the model returns
+`α + Σ β_i src_i` at every position inside the array. -/
+theorem linInterp_affine_exact (a : Arr Rat) (src : List Rat) (α : Rat) (β : List Rat) (hin : InsideL src a.shape)
+    (hv : ∀ idx, inShape a.shape idx = true → a.getD idx 0 = α + dotL β (ratIdx idx)) :
+    linInterp a src = α + dotL β src :=
+  linInterp_affine a src α β hin hv
+
+/-- **the same over every ordered field with a floor function** (`interpRec` is the interpolant; at `K = ℚ` it is the
+executable model by `linInterp_closed_forms`): range, affine exactness and exactness at grid points, where `Relevant xs is`
+says that the corner `is` carries non-zero weight at `xs` -/
+theorem linear_interpolation_any_field {K : Type} [Field K] [LinearOrder K] [IsStrictOrderedRing K] [FloorRing K]
+    (xs : List K) (g : List Int → K) :
+    (∀ lo hi : K, (∀ is, Relevant xs is → lo ≤ g is ∧ g is ≤ hi) → lo ≤ interpRec xs g ∧ interpRec xs g ≤ hi) ∧
+    (∀ (α : K) (β : List K), (∀ is, Relevant xs is → g is = α + dotL β (is.map (fun (z : Int) => (z : K)))) →
+      interpRec xs g = α + dotL β xs) ∧
+    (∀ ks : List Int, xs = ks.map (fun (z : Int) => (z : K)) → interpRec xs g = g ks) ∧
+    (∀ ns : List Nat, xs.length = ns.length → (∀ is, ¬ InBoxL ns is → g is = 0) →
+      interpRec xs g = boxSum ns (fun x => g x * hatProd xs x)) :=
+  ⟨fun lo hi h => interpRec_bounds lo hi xs g h, fun α β h => interpRec_affine xs g α β h,
+   fun ks h => by rw [h]; exact interpRec_int ks g, fun ns h1 h2 => interpRec_eq_boxSum ns xs g h1 h2⟩
+
+/-- … and the translation theorem over every such field: `out` is the order-1 resampling of `g` at `o − t` (zero where
+the source is outside the box `ns`), the support of `g` shifted by `t` stays inside (`SuppL`: `SuppOK` on every axis);
+then `Σ_o φ(o)·out(o) = Σ_x φ(x + t)·g(x)` for every affine `φ` -/
+theorem translation_affine_functional_any_field {K : Type} [Field K] [LinearOrder K] [IsStrictOrderedRing K] [FloorRing K]
+    (ns : List Nat) (ts : List K) (g out : List Int → K) (hlen : ts.length = ns.length)
+    (hg0 : ∀ is, ¬ InBoxL ns is → g is = 0) (hsupp : ∀ x, g x ≠ 0 → SuppL ns ts x)
+    (hin : ∀ o, InsideL (subL o ts) ns → out o = interpRec (subL o ts) g)
+    (hout : ∀ o, ¬ InsideL (subL o ts) ns → out o = 0) (α : K) (β : List K) :
+    boxSum ns (fun o => (α + dotL β (o.map (fun (z : Int) => (z : K)))) * out o) =
+      boxSum ns (fun x => (α + dotL β (addL x ts)) * g x) :=
+  shift_functional ns ts g out hlen hg0 hsupp hin hout α β
+
+/-! ### the order-1 rigid transform `rigidLinear` -/
+
+/-- the order-1 transform reads output voxel `o` at the pull-back `R⁻¹(o − c) + c − t` (every matrix, centre, translation) -/
+theorem rigidLinear_eq_pullback {d : Nat} (a : Arr Rat) (rinv : Mat d Rat) (t c o : Vec d Rat) :
+    rigidLinear a rinv t c o = linInterp a (List.ofFn (pullback rinv t c o)) := by
+  simp only [rigidLinear, listOfVec, matrix_eq_pullback]
+
+/-- (a), (d) for the transform: wherever the pulled-back position is inside the array, the output lies in the range
+of the input, a constant array gives that constant, and an affine array `α + β·x` gives `α + β·(R⁻¹(o − c) + c − t)` -/
+theorem rigidLinear_interior {d : Nat} (a : Arr Rat) (rinv : Mat d Rat) (t c o : Vec d Rat)
+    (hin : InsideL (List.ofFn (pullback rinv t c o)) a.shape) :
+    (∀ lo hi : Rat, (∀ idx, inShape a.shape idx = true → lo ≤ a.getD idx 0 ∧ a.getD idx 0 ≤ hi) →
+      lo ≤ rigidLinear a rinv t c o ∧ rigidLinear a rinv t c o ≤ hi) ∧
+    (∀ k : Rat, (∀ idx, inShape a.shape idx = true → a.getD idx 0 = k) → rigidLinear a rinv t c o = k) ∧
+    (∀ (α : Rat) (β : List Rat), (∀ idx, inShape a.shape idx = true → a.getD idx 0 = α + dotL β (ratIdx idx)) →
+      rigidLinear a rinv t c o = α + dotL β (List.ofFn (pullback rinv t c o))) := by
+  rw [rigidLinear_eq_pullback]
+  exact ⟨fun lo hi hv => linInterp_bounds a _ lo hi hin hv, fun k hv => linInterp_constant a _ k hin hv,
+    fun α β hv => linInterp_affine a _ α β hin hv⟩
+
+/-- **(b) for the transform**: whenever the pulled-back position of `o` is a grid point `s`, the output is the voxel
+`a[s]` (`0` outside the array), whatever the matrix, centre and translation -/
+theorem rigidLinear_grid_point {d : Nat} (a : Arr Rat) (rinv : Mat d Rat) (t c o : Vec d Rat) (s : Vec d Int)
+    (hs : ∀ i, pullback rinv t c o i = ((s i : Int) : Rat)) :
+    rigidLinear a rinv t c o = a.getI (List.ofFn s) 0 := by
+  rw [rigidLinear_eq_pullback, show pullback rinv t c o = fun i => ((s i : Int) : Rat) from funext hs,
+    show List.ofFn (fun i => ((s i : Int) : Rat)) = (List.ofFn s).map (fun (z : Int) => (z : Rat)) by
+      rw [List.map_ofFn]; rfl]
+  exact linInterp_int a _
+
+/-- **the grid theorems are the special case**: whenever the exact grid model `gridTransform` (the object of
+`grid_perm`, `grid_perm_onto`, `grid_never_interpolates`, `identity_id`, `int_translation_shift`) returns a value for
+output voxel `o` — integer matrix and translation, geometric centre `(n − 1)/2` — the order-1 model returns the same -/
+theorem rigidLinear_on_grid {d : Nat} (a : Arr Rat) (n : Fin d → Nat) (hshape : a.shape = List.ofFn n)
+    (rinv : Mat d Int) (t o : Vec d Int) (v : Rat)
+    (h : gridTransform n rinv t (fnOfArr a) o = some v) :
+    rigidLinear a (fun i j => ((rinv i j : Int) : Rat)) (fun i => ((t i : Int) : Rat))
+      (fun i => ((n i : Rat) - 1) / 2) (fun i => ((o i : Int) : Rat)) = v := by
+  simp only [gridTransform, resample] at h
+  split at h
+  · rename_i hev
+    rw [isEven_iff] at hev
+    have hs : ∀ i, pull2 n rinv t o i = 2 * (pull2 n rinv t o i / 2) := fun i => by have := hev i; omega
+    rw [rigidLinear_grid_point a _ _ _ _ (fun i => pull2 n rinv t o i / 2)]
+    · simp only [Option.some.injEq, fnOfArr] at h
+      rw [← h]
+      split
+      · rfl
+      · rename_i hb
+        exact getI_of_not_inBox a _ (by rw [hshape, inBoxL_ofFn]; exact hb)
+    · intro i
+      have h2 := pull2_eq_twice_pullback (K := Rat) n rinv t o i
+      have h3 : ((pull2 n rinv t o i : Int) : Rat) = 2 * ((pull2 n rinv t o i / 2 : Int) : Rat) := by
+        exact_mod_cast congrArg (fun (z : Int) => (z : Rat)) (hs i)
+      linarith
+  · cases h
+
+/-- a **pure translation** does not depend on the centre (geometric or centre of mass): `out[o] = lin-interp(a, o − t)` -/
+theorem rigidLinear_translation {d : Nat} (a : Arr Rat) (t c o : Vec d Rat) :
+    rigidLinear a (ident d) t c o = linInterp a (List.ofFn (fun i => o i - t i)) := by
+  rw [rigidLinear_eq_pullback]
+  congr 2
+  funext i
+  simp only [pullback, matVec_ident]; ring
+
+/-- **(c) integer translation with the identity is the exact zero-filled shift** `out[o] = a[o − t]`, for every centre
+— the order-1 counterpart of `int_translation_shift` -/
+theorem rigidLinear_int_translation {d : Nat} (a : Arr Rat) (t o : Vec d Int) (c : Vec d Rat) :
+    rigidLinear a (ident d) (fun i => ((t i : Int) : Rat)) c (fun i => ((o i : Int) : Rat)) =
+      a.getI (List.ofFn (fun i => o i - t i)) 0 := by
+  apply rigidLinear_grid_point
+  intro i
+  simp only [pullback, matVec_ident]; push_cast; ring
+
+/-- corollary: **at order 1 every grid rotation is the exact permutation of voxels** (`grid_perm` transferred): for a
+signed permutation matrix and a shape it leaves invariant, each voxel `x` has its image `y = R(x − c) + c` inside the
+array and the order-1 output there is exactly `a[x]` -/
+theorem rigidLinear_grid_perm {d : Nat} (a : Arr Rat) (n : Fin d → Nat) (hshape : a.shape = List.ofFn n)
+    (R rinv : Mat d Int) (q : Fin d → Fin d) (s : Fin d → Int) (hR : IsSignedPerm R q s) (hn : ∀ i, n (q i) = n i)
+    (hinv : matMul rinv R = ident d) (x : Vec d Int) (hx : inBox n x = true) :
+    ∃ y : Vec d Int, inBox n y = true ∧ (∀ i, push2 n R (fun _ => 0) x i = 2 * y i) ∧
+      rigidLinear a (fun i j => ((rinv i j : Int) : Rat)) (fun _ => 0) (fun i => ((n i : Rat) - 1) / 2)
+        (fun i => ((y i : Int) : Rat)) = a.getI (List.ofFn x) 0 := by
+  obtain ⟨y, hy1, hy2, hy3⟩ := grid_perm n R rinv q s hR hn hinv (fnOfArr a) x hx
+  refine ⟨y, hy1, hy2, ?_⟩
+  have := rigidLinear_on_grid a n hshape rinv (fun _ => 0) y _ hy3
+  simpa [fnOfArr] using this
+
+/-- corollary: **the identity leaves the array unchanged at order 1**, for every centre -/
+theorem rigidLinear_identity {d : Nat} (a : Arr Rat) (o : Vec d Int) (c : Vec d Rat) :
+    rigidLinear a (ident d) (fun _ => 0) c (fun i => ((o i : Int) : Rat)) = a.getI (List.ofFn o) 0 := by
+  have := rigidLinear_int_translation a (fun _ => 0) o c
+  simpa using this
+
+/-- the output array holds the per-voxel transform: every theorem about `rigidLinear` is a theorem about the voxels of
+`rigidLinearArr` (the array the driver returns and the harness compares with `rigid_transform(order=1)`) -/
+theorem rigidLinearArr_getD {d : Nat} (a : Arr Rat) (rinv : Mat d Rat) (t c : Vec d Rat) (idx : List Nat)
+    (h : inShape a.shape idx = true) :
+    (rigidLinearArr a rinv t c).shape = a.shape ∧
+    (rigidLinearArr a rinv t c).getD idx 0 = rigidLinear a rinv t c (vecOfList d (ratIdx idx)) :=
+  ⟨rfl, by rw [rigidLinearArr, Arr.getD_ofFn _ _ _ _ h]⟩
+
+/-! ### what a translation does to mass and centre of mass -/
+
+/-- the support condition of the next theorems on one axis, spelled out: the two grid neighbours `x + ⌊t⌋`, `x + ⌈t⌉`
+of the shifted voxel are voxels of the output, and their sources lie inside `[0, n − 1]` (beyond the last sample
+`mode="constant"` returns `cval`, it does not interpolate towards the edge) -/
+theorem suppOK_iff (n : Nat) (t : Rat) (x : Int) :
+    SuppOK n t x ↔ (0 ≤ x + ⌊t⌋ ∧ x + ⌈t⌉ ≤ (n : Int) - 1 ∧
+      (0 : Rat) ≤ (x : Rat) + (⌊t⌋ : Rat) - t ∧ (x : Rat) + (⌈t⌉ : Rat) - t ≤ (((n : Int) - 1 : Int) : Rat)) := Iff.rfl
+
+/-- voxel `idx` of the output array of a pure translation is the model at `idx − t` -/
+theorem rigidLinearArr_translation {d : Nat} (a : Arr Rat) (t c : Vec d Rat) (hd : a.shape.length = d)
+    (idx : List Nat) (h : inShape a.shape idx = true) :
+    (rigidLinearArr a (ident d) t c).shape = a.shape ∧
+    (rigidLinearArr a (ident d) t c).getD idx 0 =
+      linInterp a (subL (idx.map (fun (z : Nat) => (z : Int))) (List.ofFn t)) := by
+  refine ⟨rfl, ?_⟩
+  rw [rigidLinearArr, Arr.getD_ofFn _ _ _ _ h, rigidLinear_translation,
+    ofFn_sub_eq_subL d t idx ((inShape_length h).trans hd)]
+
+/-- **(d') a sub-voxel translation moves every affine functional exactly.**  Pure translation by any rational `t`, any
+centre, any dimension; if every voxel of the support, shifted by `t`, stays inside (`SuppOK` on every axis), then for
+every affine weight `φ(o) = α + β·o`:  `Σ_o φ(o)·out[o] = Σ_x φ(x + t)·a[x]`. -/
+theorem translation_affine_functional {d : Nat} (a : Arr Rat) (t c : Vec d Rat) (hd : a.shape.length = d)
+    (hsupp : ∀ idx, inShape a.shape idx = true → a.getD idx 0 ≠ 0 →
+      ∀ i : Fin d, SuppOK (a.shape.getD i.val 0) (t i) ((idx.getD i.val 0 : Nat) : Int))
+    (α : Rat) (β : List Rat) :
+    boxSum a.shape (fun o => (α + dotL β (o.map (fun (z : Int) => (z : Rat)))) * (rigidLinearArr a (ident d) t c).getI o 0) =
+      boxSum a.shape (fun x => (α + dotL β (addL x (List.ofFn t))) * a.getI x 0) := by
+  refine shift_functional_arr a (rigidLinearArr a (ident d) t c) (List.ofFn t) (by simp [hd]) rfl
+    (fun idx h => (rigidLinearArr_translation a t c hd idx h).2) (fun idx h hne => ?_) α β
+  refine suppL_ofFn d a.shape t _ hd (by simp [(inShape_length h).trans hd]) (fun i => ?_)
+  have := hsupp idx h hne i
+  have hi : i.val < idx.length := by rw [(inShape_length h).trans hd]; exact i.isLt
+  simpa [List.getD_eq_getElem?_getD, List.getElem?_map, List.getElem?_eq_getElem hi] using this
+
+/-- **(d') mass is conserved and the first moment moves by exactly `t`·mass** under a pure translation whose shifted
+support stays inside: `Σ out = Σ a` and `Σ_o o_k·out[o] = Σ_x x_k·a[x] + t_k·Σ_x a[x]` on every axis `k` -/
+theorem translation_mass_and_first_moment {d : Nat} (a : Arr Rat) (t c : Vec d Rat) (hd : a.shape.length = d)
+    (hsupp : ∀ idx, inShape a.shape idx = true → a.getD idx 0 ≠ 0 →
+      ∀ i : Fin d, SuppOK (a.shape.getD i.val 0) (t i) ((idx.getD i.val 0 : Nat) : Int))
+    (k : Fin d) :
+    mass (rigidLinearArr a (ident d) t c) = mass a ∧
+    moment (rigidLinearArr a (ident d) t c) k.val = moment a k.val + t k * mass a := by
+  have hs : ∀ idx, inShape a.shape idx = true → a.getD idx 0 ≠ 0 →
+      SuppL a.shape (List.ofFn t) (idx.map (fun (z : Nat) => (z : Int))) := by
+    intro idx h hne
+    refine suppL_ofFn d a.shape t _ hd (by simp [(inShape_length h).trans hd]) (fun i => ?_)
+    have := hsupp idx h hne i
+    have hi : i.val < idx.length := by rw [(inShape_length h).trans hd]; exact i.isLt
+    simpa [List.getD_eq_getElem?_getD, List.getElem?_map, List.getElem?_eq_getElem hi] using this
+  have hout := fun idx h => (rigidLinearArr_translation a t c hd idx h).2
+  refine ⟨shift_mass a (rigidLinearArr a (ident d) t c) (List.ofFn t) (by simp [hd]) rfl hout hs, ?_⟩
+  have := shift_moment a (rigidLinearArr a (ident d) t c) (List.ofFn t) (by simp [hd]) rfl hout hs k.val (by rw [hd]; exact k.isLt)
+  rw [this]
+  congr 2
+  simp [List.getD_eq_getElem?_getD]
+
+/-- **the centre of mass moves by exactly `t`** (pure translation, shifted support inside, non-zero mass) -/
+theorem translation_centre_of_mass {d : Nat} (a : Arr Rat) (t c : Vec d Rat) (hd : a.shape.length = d)
+    (hsupp : ∀ idx, inShape a.shape idx = true → a.getD idx 0 ≠ 0 →
+      ∀ i : Fin d, SuppOK (a.shape.getD i.val 0) (t i) ((idx.getD i.val 0 : Nat) : Int))
+    (hm : mass a ≠ 0) (k : Fin d) :
+    moment (rigidLinearArr a (ident d) t c) k.val / mass (rigidLinearArr a (ident d) t c) =
+      moment a k.val / mass a + t k := by
+  obtain ⟨h1, h2⟩ := translation_mass_and_first_moment a t c hd hsupp k
+  rw [h1, h2]
+  field_simp
+
+/-- … stated for the model of the backend's own `center_of_mass(arr, cutoff=0)` (the centre `rigid_transform` uses by
+default): on non-negative data with non-zero mass, `centerOfMass(out) = centerOfMass(a) + t` on every axis -/
+theorem translation_centerOfMass {d : Nat} (a : Arr Rat) (t c : Vec d Rat) (hd : a.shape.length = d)
+    (hsupp : ∀ idx, inShape a.shape idx = true → a.getD idx 0 ≠ 0 →
+      ∀ i : Fin d, SuppOK (a.shape.getD i.val 0) (t i) ((idx.getD i.val 0 : Nat) : Int))
+    (hpos : ∀ idx, inShape a.shape idx = true → 0 ≤ a.getD idx 0) (hm : mass a ≠ 0) (k : Fin d) :
+    (centerOfMass (rigidLinearArr a (ident d) t c) 0).getD k.val 0 = (centerOfMass a 0).getD k.val 0 + t k := by
+  have hpos' : ∀ idx, inShape (rigidLinearArr a (ident d) t c).shape idx = true →
+      0 ≤ (rigidLinearArr a (ident d) t c).getD idx 0 := by
+    intro idx h
+    rw [(rigidLinearArr_translation a t c hd idx h).2]
+    exact linInterp_nonneg a _ hpos
+  rw [centerOfMass_eq a hpos, centerOfMass_eq _ hpos']
+  have hsh : (rigidLinearArr a (ident d) t c).shape.length = a.shape.length := rfl
+  have hk : k.val < a.shape.length := by rw [hd]; exact k.isLt
+  have hget : ∀ f : Nat → Rat, ((List.range a.shape.length).map f).getD k.val 0 = f k.val := by
+    intro f
+    simp [List.getD_eq_getElem?_getD, List.getElem?_map, List.getElem?_range hk]
+  rw [hsh, hget, hget]
+  exact translation_centre_of_mass a t c hd hsupp hm k
+
+/-! ### non-vacuity of the order-1 theorems (instances in `Proofs/C06Examples.lean`) -/
+
+example := linInterp_guard exA2 [1/2, 9/4]
+example : linInterp exA2 [-1/2, 1] = 0 ∧ linInterp exA2 [1/2, 17/4] = 0 ∧ linInterp exA2 [1/2, 9/4] = 15/8 := by decide +kernel
+example := linear_weights_partition_of_unity [1/2, 9/4, -7/3]
+example : linCorners [1/2, 9/4] = [([0, 2], 3/8), ([0, 3], 1/8), ([1, 2], 3/8), ([1, 3], 1/8)] := by decide +kernel
+example := linInterp_closed_forms exRamp [1/2, 9/4] exInside
+example : (0 : Rat) ≤ linInterp exA2 [3/2, 7/4] ∧ linInterp exA2 [3/2, 7/4] ≤ 7 :=
+  linInterp_range exA2 [3/2, 7/4] 0 7 ((insideL_iff _ _).2 ⟨rfl, by decide +kernel⟩) exA2_range
+example : linInterp exConst [1/2, 9/4] = 5 := linInterp_constant exConst _ 5 exInside exConst_const
+example : linInterp exA2 ([2, 2].map (fun (z : Int) => (z : Rat))) = exA2.getI [2, 2] 0 := linInterp_grid_point exA2 [2, 2]
+example : exA2.getI [2, 2] 0 = 7 ∧ exA2.getI [2, 5] 0 = 0 ∧ exA2.getI [-1, 2] 0 = 0 := by decide +kernel
+example : linInterp exRamp [1/2, 9/4] = 2 + dotL [3, -1/2] [1/2, 9/4] :=
+  linInterp_affine_exact exRamp _ 2 [3, -1/2] exInside exRamp_affine
+example : linInterp exRamp [1/2, 9/4] = 19/8 := by decide +kernel
+-- outside the array nothing of this holds (zero fill): the hypothesis `InsideL` matters
+example : linInterp exConst [1/2, 7/2] = 0 := by decide +kernel
+-- the 3-4-5 rotation about (5/2, 3) with a translation: output voxel (1, 2) is read at (4/5, 13/5), inside the ramp
+example := rigidLinear_eq_pullback exRamp exRqinv (vecOfList 2 [0, 1]) exC (vecOfList 2 [1, 2])
+example := rigidLinear_interior exRamp exRqinv (vecOfList 2 [0, 1]) exC (vecOfList 2 [1, 2])
+  ((insideL_iff _ _).2 ⟨rfl, by decide +kernel⟩)
+example : List.ofFn (pullback exRqinv (vecOfList 2 [0, 1]) exC (vecOfList 2 [1, 2])) = [4/5, 13/5] ∧
+    rigidLinear exRamp exRqinv (vecOfList 2 [0, 1]) exC (vecOfList 2 [1, 2]) = 2 + 3 * (4/5) - (13/5) / 2 := by decide +kernel
+-- the mirror of axis 0 with an integer translation on the 4 × 5 array: grid model and order-1 model agree
+example : gridTransform (fun i : Fin 2 => if i.val = 0 then 4 else 5) (matOfRows 2 [[-1, 0], [0, 1]]) (vecOfList 2 [1, 0])
+    (fnOfArr exA2) (vecOfList 2 [0, 2]) = some 7 := by decide +kernel
+example := rigidLinear_on_grid exA2 (fun i : Fin 2 => if i.val = 0 then 4 else 5) (by decide) (matOfRows 2 [[-1, 0], [0, 1]])
+  (vecOfList 2 [1, 0]) (vecOfList 2 [0, 2]) 7 (by decide +kernel)
+example := rigidLinear_grid_point exA2 (ident 2) (vecOfList 2 [1/2, -3/4]) exC2 (vecOfList 2 [3/2, 5/4]) (vecOfList 2 [1, 2])
+  (by intro i; fin_cases i <;> decide +kernel)
+example := rigidLinear_grid_perm (Arr.ofFn [5, 6, 5] (fun idx => ((idx.getD 0 0 + 10 * idx.getD 1 0 + 100 * idx.getD 2 0 : Nat) : Rat)))
+  exN3 (by decide) exR3 exR3inv exQ3 exS3 exR3_signed exN3_inv exR3_inv exX3 (by decide)
+example : rigidLinear exA2 (ident 2) (fun _ => 0) exC2 (fun i => (((vecOfList 2 [2, 2] : Vec 2 Int) i : Int) : Rat)) =
+    exA2.getI (List.ofFn (vecOfList 2 [2, 2] : Vec 2 Int)) 0 := rigidLinear_identity exA2 _ exC2
+example := rigidLinearArr_getD exA2 exRqinv exT exC [1, 2] rfl
+example := rigidLinear_translation exA2 exT2 exC2 (vecOfList 2 [2, 1])
+example : rigidLinear exA2 (ident 2) (fun i => ((vecOfList 2 [1, -1] i : Int) : Rat)) exC2 (fun i => ((vecOfList 2 [2, 1] i : Int) : Rat)) =
+    exA2.getI (List.ofFn (fun i => vecOfList 2 [2, 1] i - vecOfList 2 [1, -1] i)) 0 :=
+  rigidLinear_int_translation exA2 (vecOfList 2 [1, -1]) (vecOfList 2 [2, 1]) exC2
+example : exA2.getI (List.ofFn (fun i => (vecOfList 2 [2, 1] : Vec 2 Int) i - (vecOfList 2 [1, -1] : Vec 2 Int) i)) 0 = 5 := by decide +kernel
+example : SuppOK 5 (-3/4 : Rat) 1 ∧ ¬ SuppOK 5 (-3/4 : Rat) 0 ∧ ¬ SuppOK 4 (1/2 : Rat) 0 := by decide +kernel
+example := (suppOK_iff 5 (-3/4) 1).1 (by decide +kernel)
+example := rigidLinearArr_translation exA2 exT2 exC2 rfl [1, 2] rfl
+example : (rigidLinearArr exA2 (ident 2) exT2 exC2).toList =
+    [0, 0, 0, 0, 0, 9/8, 9/4, 5/8, 0, 0, 15/8, 41/8, 3/2, 0, 0, 3/4, 23/8, 7/8, 0, 0] := by decide +kernel
+example := translation_affine_functional exA2 exT2 exC2 rfl exA2_supp 1 [2, -1]
+example : mass (rigidLinearArr exA2 (ident 2) exT2 exC2) = mass exA2 ∧
+    moment (rigidLinearArr exA2 (ident 2) exT2 exC2) 1 = moment exA2 1 + exT2 1 * mass exA2 :=
+  translation_mass_and_first_moment exA2 exT2 exC2 rfl exA2_supp 1
+example : mass exA2 = 17 ∧ moment exA2 0 = 26 ∧ moment exA2 1 = 29 ∧
+    moment (rigidLinearArr exA2 (ident 2) exT2 exC2) 0 = 26 + 17 / 2 ∧
+    moment (rigidLinearArr exA2 (ident 2) exT2 exC2) 1 = 29 - 3 * 17 / 4 := by decide +kernel
+example := translation_centre_of_mass exA2 exT2 exC2 rfl exA2_supp (by decide +kernel) 0
+example := (linInterp_global_bounds exA2 [3/2, 7/4]).1 (fun idx h => (exA2_range idx h).1)
+example : |linInterp exA2 [3/2, 17/4]| ≤ 7 := (linInterp_global_bounds exA2 [3/2, 17/4]).2 7 (by norm_num)
+  (fun idx h => abs_le.2 ⟨by have := (exA2_range idx h).1; linarith, (exA2_range idx h).2⟩)
+example := linear_interpolation_any_field (K := Rat) [1/2, 9/4] (fun is => exRamp.getI is 0)
+example : Relevant [(1/2 : Rat), 2] [1, 2] ∧ ¬ Relevant [(1/2 : Rat), 2] [1, 3] := by
+  constructor
+  · exact List.Forall₂.cons (Or.inr ⟨by decide +kernel, by decide +kernel⟩) (List.Forall₂.cons (Or.inl (by decide +kernel)) List.Forall₂.nil)
+  · intro h
+    rcases (List.forall₂_cons.1 (List.forall₂_cons.1 h).2).1 with h1 | ⟨_, h2⟩
+    · revert h1; decide +kernel
+    · revert h2; decide +kernel
+example : (centerOfMass (rigidLinearArr exA2 (ident 2) exT2 exC2) 0).getD 1 0 = (centerOfMass exA2 0).getD 1 0 + exT2 1 :=
+  translation_centerOfMass exA2 exT2 exC2 rfl exA2_supp (fun idx h => (exA2_range idx h).1) (by decide +kernel) 1
+example : centerOfMass exA2 0 = [26/17, 29/17] ∧
+    centerOfMass (rigidLinearArr exA2 (ident 2) exT2 exC2) 0 = [26/17 + 1/2, 29/17 - 3/4] := by decide +kernel
+-- a voxel on the border loses mass under a half-voxel shift (its lower neighbour is read at −1/2, outside): the
+-- support hypothesis matters
+example : mass (rigidLinearArr (⟨[3], #[4, 0, 0]⟩ : Arr Rat) (ident 1) (fun _ => 1/2) (fun _ => 1)) = 2 := by decide +kernel
 
 /-! ## `Density.rigid_transform`: the clean-up of interpolation noise does not depend on the absolute intensity
 
